@@ -33,7 +33,7 @@ func c02IP(s string) net.IP { return net.IP(netip.MustParseAddr(s).AsSlice()) }
 // (names, address literals) it reveals.
 func c02GenAnswer(r *rand.Rand, c *c01Case) (revealed []string) {
 	hdr := func(name string, t uint16) dns.RR_Header {
-		return dns.RR_Header{Name: name, Rrtype: t, Class: dns.ClassINET, Ttl: uint32(20 + r.IntN(500))}
+		return dns.RR_Header{Name: name, Rrtype: t, Class: dns.ClassINET, Ttl: uint32(100 + r.IntN(2000))}
 	}
 	c.urcode = dns.RcodeSuccess
 	owner := c.qname
@@ -60,28 +60,53 @@ func c02GenAnswer(r *rand.Rand, c *c01Case) (revealed []string) {
 	if c.qtype == dns.TypeHTTPS || r.IntN(6) == 0 {
 		for i := 1 + r.IntN(2); i > 0; i-- {
 			rr := &dns.HTTPS{SVCB: dns.SVCB{Hdr: hdr(owner, dns.TypeHTTPS), Priority: uint16(1 + r.IntN(3)), Target: "."}}
-			for j := r.IntN(4); j > 0; j-- {
-				switch r.IntN(4) {
-				case 0:
+			hint4 := func() {
+				var ips []net.IP
+				for k := 1 + r.IntN(2); k > 0; k-- {
+					s := vutil.Pick(r, c02V4)
+					ips = append(ips, c02IP(s))
+					revealed = append(revealed, s)
+				}
+				rr.Value = append(rr.Value, &dns.SVCBIPv4Hint{Hint: ips})
+			}
+			hint6 := func() {
+				var ips []net.IP
+				for k := 1 + r.IntN(2); k > 0; k-- {
+					ip := c02IP(vutil.Pick(r, c02V6))
+					ips = append(ips, ip)
+					revealed = append(revealed, ip.String())
+				}
+				rr.Value = append(rr.Value, &dns.SVCBIPv6Hint{Hint: ips})
+			}
+			if r.IntN(5) > 0 {
+				// well-formed: distinct keys in increasing order (what miekg/dns can pack)
+				if r.IntN(2) == 0 {
 					rr.Value = append(rr.Value, &dns.SVCBAlpn{Alpn: []string{"h2"}})
-				case 1:
-					var ips []net.IP
-					for k := r.IntN(3); k > 0; k-- {
-						s := vutil.Pick(r, c02V4)
-						ips = append(ips, c02IP(s))
-						revealed = append(revealed, s)
-					}
-					rr.Value = append(rr.Value, &dns.SVCBIPv4Hint{Hint: ips})
-				case 2:
-					var ips []net.IP
-					for k := r.IntN(3); k > 0; k-- {
-						ip := c02IP(vutil.Pick(r, c02V6))
-						ips = append(ips, ip)
-						revealed = append(revealed, ip.String())
-					}
-					rr.Value = append(rr.Value, &dns.SVCBIPv6Hint{Hint: ips})
-				default:
+				}
+				if r.IntN(3) == 0 {
 					rr.Value = append(rr.Value, &dns.SVCBPort{Port: 443})
+				}
+				if r.IntN(3) > 0 {
+					hint4()
+				}
+				if r.IntN(2) == 0 {
+					hint6()
+				}
+			} else {
+				// any order, repeated keys, empty hint lists
+				for j := r.IntN(4); j > 0; j-- {
+					switch r.IntN(5) {
+					case 0:
+						rr.Value = append(rr.Value, &dns.SVCBAlpn{Alpn: []string{"h2"}})
+					case 1:
+						hint4()
+					case 2:
+						hint6()
+					case 3:
+						rr.Value = append(rr.Value, &dns.SVCBIPv4Hint{})
+					default:
+						rr.Value = append(rr.Value, &dns.SVCBPort{Port: 443})
+					}
 				}
 			}
 			rrs = append(rrs, rr)
@@ -225,7 +250,77 @@ func c02Gen(r *rand.Rand, emit vutil.Emit) {
 }
 
 func TestVerifC02(t *testing.T) {
-	e := c01NewEnv(t)
+	e := c01NewEnv(t, 0)
 	c01LoadServices(e)
 	vutil.Main(t, c02Gen, e.run)
+}
+
+// c02SeqGen: sequence mode on a proxy with the DNS cache enabled.  Each block
+// is one configuration + rule set + scripted upstream answer (C02.sreset, which
+// also clears the cache), then the same query repeated 2-4 times interleaved
+// with other names / types / letter cases.
+func c02SeqGen(r *rand.Rand, emit vutil.Emit) {
+	blocks := vutil.N(1500)
+	for b := 0; b < blocks; b++ {
+		c := c02GenCase(r)
+		f := c.fields("C02.sreset")
+		line := append(append([]string{f[0]}, c02CacheForm(c)...), f[1:]...)
+		emit(append(line, c.oracleFields()...)...)
+		type qq struct {
+			name string
+			qt   uint16
+		}
+		qs := []qq{{c.qname, c.qtype}}
+		for i := r.IntN(3); i > 0; i-- {
+			qs = append(qs, qq{vutil.Pick(r, []string{"other.example.com.", "site.example.com.", "example.org.", c01MixCase(r, c.qname)}),
+				vutil.Pick(r, []uint16{c.qtype, c.qtype, dns.TypeA, dns.TypeAAAA, dns.TypeHTTPS})})
+		}
+		var seq []qq
+		for _, q := range qs {
+			for i := 2 + r.IntN(3); i > 0; i-- {
+				seq = append(seq, q)
+			}
+		}
+		if r.IntN(2) == 0 {
+			r.Shuffle(len(seq), func(i, j int) { seq[i], seq[j] = seq[j], seq[i] })
+		}
+		for _, q := range seq {
+			n := q.name
+			if r.IntN(4) == 0 {
+				n = c01MixCase(r, strings.ToLower(n))
+			}
+			emit("C02.sq", vutil.Hex(n), vutil.Itoa(int(q.qt)))
+		}
+	}
+}
+
+// c02CacheForm is an oracle for the cache model: dnsproxy stores the PACKED
+// upstream response, so what a hit returns is the response after a miekg/dns
+// Pack/Unpack round trip (SVCB parameters sorted by key, …), and a response
+// that cannot be packed is never served from the cache.
+func c02CacheForm(c *c01Case) (fields []string) {
+	m := &dns.Msg{}
+	m.SetQuestion(c.qname, c.qtype)
+	resp := new(dns.Msg).SetReply(m)
+	resp.Rcode = c.urcode
+	for _, rr := range c.uans {
+		resp.Answer = append(resp.Answer, dns.Copy(rr))
+	}
+	b, err := resp.Pack()
+	back := &dns.Msg{}
+	if err != nil || back.Unpack(b) != nil {
+		return []string{"0", "0"}
+	}
+	fields = []string{"1", vutil.Itoa(len(back.Answer))}
+	for _, rr := range back.Answer {
+		fields = append(fields, c01RRTok(rr, true))
+	}
+
+	return fields
+}
+
+func TestVerifC02Seq(t *testing.T) {
+	e := c01NewEnv(t, 4*1024*1024)
+	c01LoadServices(e)
+	vutil.Main(t, c02SeqGen, e.run)
 }
